@@ -90,6 +90,16 @@ def _ext_sign(self):
     return None
 
 
+def _fmod(self, o):
+    """Tensor.fmod on concrete values (sign of the dividend, as torch)"""
+    import math
+    def f(x):
+        if not x.is_const():
+            raise TraceError("fmod of a symbolic value")
+        return E.const(math.fmod(x.value(), o))
+    return self._new(np.vectorize(f, otypes=[object])(self.a))
+
+
 _orig_setitem = st.Tensor.__setitem__
 
 
@@ -193,6 +203,8 @@ INDEX_CASES = [
     ("center_pad_odd", (2, 4), "center_pad", ((7, 2),), {}),
     ("narrow_x", (3, 4), "narrow", (3, 1, 2), {}),
     ("narrow_y", (3, 4), "narrow", (2, 1, 2), {}),
+    ("roi2", (3, 4), "region_of_interest", ((1, 0), (2, 2)), {}),
+    ("roi2_pad", (3, 4), "region_of_interest", ((-1, 1), (3, 2)), dict(value=2.5)),
     ("crop3", (2, 2, 3), "crop", (), dict(num=(1, 0, 0, 1, 0, 1))),
     ("roi3", (2, 2, 3), "region_of_interest", ((1, 0, 1), (2, 2, 1)), {}),
     ("narrow_z", (2, 2, 3), "narrow", (2, 1, 1), {}),
@@ -224,7 +236,7 @@ def generate(loader):
     Fake = make_fake(DI, st)
     out = ["Section Gen.", "Context {K : fld}.", ""]
     with patched(st, arange=_arange_exact, meshgrid=_meshgrid, flip=_flip, __version__="2.0.0"), \
-            patched(st.Tensor, data_ptr=lambda self: id(self.a), as_subclass=lambda self, cls: self, __floordiv__=_floordiv, __setitem__=_setitem), \
+            patched(st.Tensor, data_ptr=lambda self: id(self.a), as_subclass=lambda self, cls: self, __floordiv__=_floordiv, __setitem__=_setitem, fmod=_fmod), \
             patched(I.F, pad=f_pad), patched(E, __floordiv__=_e_floordiv, _sign=_ext_sign), _unit_det():
         # ---- index-only operations
         for name, shape, meth, args, kwargs in INDEX_CASES:
@@ -261,6 +273,25 @@ def generate(loader):
                                             comment=f"ImageBatch.avg_pool({ks}) on a {shape} image: returned data"))
             emit_grid(out, name, g, grids[0], f"ImageBatch.avg_pool({ks})")
             out.append(f"Definition gen_io_shape_{name} : list Z := {zl(reversed(arr.shape))}.\n")
+        # ---- convolution with an n-D kernel tensor (symbolic taps): data through symtorch's conv2d, grid unchanged
+        for name, shape, kshape in (("conv2", (3, 4), (3, 3)),):
+            D = len(shape)
+            g = concrete_size(mk_grid(G.Grid, D, align=True), shape)
+            fb = Fake(sym_image(shape), [g])
+            karr = np.empty(kshape, dtype=object)
+            for idx in np.ndindex(*kshape):
+                karr[idx] = E.var("k_" + "_".join(str(i) for i in idx))
+            res = DI.ImageBatch.conv(fb, st.Tensor(karr, dtype=st.float32))
+            data, grids = res[1], res[2]
+            if len(grids) != 1 or grids[0] is not g and not (trlib.same_tensor(grids[0]._size.a, g._size.a) and
+                                                              trlib.same_tensor(grids[0]._spacing.a, g._spacing.a) and
+                                                              trlib.same_tensor(grids[0]._center.a, g._center.a)):
+                raise TraceError(f"{name}: conv with same padding changes the grid")
+            arr = data.a[0, 0]
+            if tuple(arr.shape) != tuple(shape):
+                raise TraceError(f"{name}: conv with same padding changes the data shape to {tuple(arr.shape)}")
+            out.append(trlib.emit_match_def(f"gen_io_data_{name}", [("img", st.Tensor(sym_image(shape)[0, 0])), ("w", st.Tensor(karr))], [],
+                                            st.Tensor(arr), comment=f"ImageBatch.conv(kernel {kshape}) on a {shape} image: returned data"))
         # ---- interpolating operations: what reaches F.interpolate, and the grid that is returned with it
         rows = []
         for name, shape, flag, meth, args, kwargs in INTERP_CASES:
